@@ -8,7 +8,10 @@
 
 package py
 
-import "bytes"
+import (
+	"bytes"
+	"reflect"
+)
 
 var SetType = NewTypeX("set", "set() -> new empty set object\nset(iterable) -> new set object\n\nBuild an unordered collection of unique elements.", SetNew, nil)
 
@@ -38,12 +41,32 @@ func NewSetWithCapacity(n int) *Set {
 }
 
 // Make a new set with the items passed in
-func NewSetFromItems(items []Object) *Set {
+//
+// Returns a TypeError if an item can't be a member of a set
+func NewSetFromItems(items []Object) (*Set, error) {
 	s := NewSetWithCapacity(len(items))
 	for _, item := range items {
-		s.items[item] = SetValue{}
+		if err := s.Add(item); err != nil {
+			return nil, err
+		}
 	}
-	return s
+	return s, nil
+}
+
+// checkHashable returns a TypeError if item can't be a member of a set
+//
+// list, dict and set are unhashable in Python.  FIXME tuple and bytes
+// are hashable in Python, but until there is proper hashing the
+// members are the keys of a Go map, which these types can't be.
+func checkHashable(item Object) error {
+	switch item.(type) {
+	case *List, StringDict, *Set:
+	default:
+		if reflect.TypeOf(item).Comparable() {
+			return nil
+		}
+	}
+	return ExceptionNewf(TypeError, "unhashable type: '%s'", item.Type().Name)
 }
 
 func init() {
@@ -52,14 +75,22 @@ func init() {
 		if len(args) != 1 {
 			return nil, ExceptionNewf(TypeError, "append() takes exactly one argument (%d given)", len(args))
 		}
-		setSelf.Add(args[0])
+		if err := setSelf.Add(args[0]); err != nil {
+			return nil, err
+		}
 		return NoneType{}, nil
 	}, 0, "add(value)")
 }
 
 // Add an item to the set
-func (s *Set) Add(item Object) {
+//
+// Returns a TypeError if the item can't be a member of a set
+func (s *Set) Add(item Object) error {
+	if err := checkHashable(item); err != nil {
+		return err
+	}
 	s.items[item] = SetValue{}
+	return nil
 }
 
 // SetNew
@@ -94,17 +125,28 @@ func NewFrozenSet() *FrozenSet {
 }
 
 // Make a new set with the items passed in
-func NewFrozenSetFromItems(items []Object) *FrozenSet {
-	return &FrozenSet{
-		Set: *NewSetFromItems(items),
+//
+// Returns a TypeError if an item can't be a member of a set
+func NewFrozenSetFromItems(items []Object) (*FrozenSet, error) {
+	s, err := NewSetFromItems(items)
+	if err != nil {
+		return nil, err
 	}
+	return &FrozenSet{
+		Set: *s,
+	}, nil
 }
 
 // Extend the set with items
-func (s *Set) Update(items []Object) {
+//
+// Returns a TypeError if an item can't be a member of a set
+func (s *Set) Update(items []Object) error {
 	for _, item := range items {
-		s.items[item] = SetValue{}
+		if err := s.Add(item); err != nil {
+			return err
+		}
 	}
+	return nil
 }
 
 func (s *Set) M__len__() (Object, error) {
